@@ -129,8 +129,9 @@ Definition prop_brpos (input obs : val) : val :=
   else VT "ok".
 
 (* ---- kind inspect ------------------------------------------------------------------------
-   input: (opts file hok-table hdr-table validate how)    [how: free-form tag of the generator]
-   observation: (inspect-part scan-part index-part trusted-scan-part)
+   input: (opts file hok-table hdr-table validate how history)   [how: free-form tag of the generator;
+          history: calls made on the same Reader before the Inspect under test]
+   observation: (inspect-part scan-part index-part trusted-scan-part history-part)
      inspect-part: (tnewerr e) | (tinsperr e) | (tok stats...)
      scan-part:    what NewBlockReader + Next* (hash-verifying, same limits) did on the same bytes
      index-part:   (tnone) | (tidx code) | (tidxerr e)   -- index.ReadCodec at IndexOffset *)
@@ -164,12 +165,30 @@ Definition run_inspect (input : val) : val :=
          | Err e => VL [VT "openerr"; v_err e]
          | Ok (v, roots, s) => VL [VT "ok"; VN v; v_cids roots; v_scan s]
          end in
+  (* 5th part: what the calls made on the same Reader BEFORE the Inspect under test returned
+     (input field 6: n1 Roots, n2 DataReader, n3 IndexReader, n4 Inspect(false), n5 Inspect(true)) *)
+  let ops := map (fun x => let k := vN x in
+                           if k =? 1 then ORoots else if k =? 2 then ODataReader
+                           else if k =? 3 then OIndexReader else OInspect (k =? 5)) (vL (vnth 6 input)) in
+  let v_insp r := match r with
+                  | Err e => VL [VT "insperr"; v_err e]
+                  | Ok t => VL (VT "ok" :: v_stats t)
+                  end in
+  let v_out x := match x with
+                 | RRoots (Ok r) => VL [VT "roots"; v_cids r]
+                 | RRoots (Err e) => VL [VT "rootserr"; v_err e]
+                 | RData b => VL [VT "data"; VB b]
+                 | RIndex None => VL [VT "noindex"]
+                 | RIndex (Some b) => VL [VT "index"; VB b]
+                 | RInspect r => v_insp r
+                 end in
   match new_reader hdr o file with
-  | Err e => VL [VL [VT "newerr"; v_err e]; scan; VL [VT "none"]; tscan]
+  | Err e => VL [VL [VT "newerr"; v_err e]; scan; VL [VT "none"]; tscan; VL []]
   | Ok rd =>
-    VL [match inspect hok hdr o rd file validate with
-        | Err e => VL [VT "insperr"; v_err e]
-        | Ok t => VL (VT "ok" :: v_stats t)
+    let hist := rrun hok hdr o file (fresh_reader rd) ops in
+    VL [match fst (rstep hok hdr o file (snd hist) (OInspect validate)) with
+        | RInspect r => v_insp r
+        | _ => VL []
         end;
         scan;
         if negb (r_version rd =? 1) && has_index (r_hdr rd) then
@@ -178,7 +197,8 @@ Definition run_inspect (input : val) : val :=
           | Err e => VL [VT "idxerr"; v_err e]
           end
         else VL [VT "none"];
-        tscan]
+        tscan;
+        VL (map v_out (fst hist))]
   end.
 
 Fixpoint val_eqb (fuel : nat) (a b : val) : bool :=
@@ -220,6 +240,9 @@ Definition prop_inspect (input obs : val) : val :=
   let scan := vnth 1 obs in
   let idx := vnth 2 obs in
   if is_tag (vnth 0 insp) "newerr" then VT "ok"
+  else if existsb (fun p => (vN (fst p) =? (if validate then 5 else 4)) && negb (val_eqb 60 (snd p) insp))
+                  (combine (vL (vnth 6 input)) (vL (vnth 4 obs)))
+  then VL [VT "FAIL"; VT "inspect-depends-on-history"]
   else if negb validate then
     (* Inspect(false) against the real TrustedCAR scan: a clean scan (and readable codec) must be
        accepted with exactly its statistics; anything else it accepts must be the cut-last-block
